@@ -3,6 +3,8 @@ CONSTANTS
   Size = 1
   Triggers = {"f1", "f2"}
   Spawned = {"h1"}
+  Pickers = {}
+  Defect_PickOnlyEmpty = FALSE
   Closers = {"k1", "k2"}
   MaxFail = 2
   MaxKill = 1
